@@ -316,7 +316,7 @@ impl<L> ClientBuilder<L> {
 		let (send_receive_task_sync_tx, send_receive_task_sync_rx) = mpsc::channel(1);
 		let manager = ThreadSafeRequestManager::new();
 		#[cfg(jsonrpsee_verif)]
-		let verif_manager = manager.clone();
+		let verif_manager = Arc::downgrade(&manager.0);
 
 		let (ping_interval, inactivity_stream, inactivity_check) = match self.ping_config {
 			None => (IntervalStream::pending(), IntervalStream::pending(), InactivityCheck::Disabled),
@@ -394,7 +394,7 @@ impl<L> ClientBuilder<L> {
 		let (send_receive_task_sync_tx, send_receive_task_sync_rx) = mpsc::channel(1);
 		let manager = ThreadSafeRequestManager::new();
 		#[cfg(jsonrpsee_verif)]
-		let verif_manager = manager.clone();
+		let verif_manager = Arc::downgrade(&manager.0);
 
 		let ping_interval = PendingIntervalStream::pending();
 		let inactivity_stream = PendingIntervalStream::pending();
@@ -451,9 +451,10 @@ pub struct Client<L = RpcLogger<RpcService>> {
 	/// When the client is dropped a message is sent to the background thread.
 	on_exit: Option<oneshot::Sender<()>>,
 	service: L,
-	/// Verification hook: handle to the request table shared with the background tasks.
+	/// Verification hook: weak handle to the request table owned by the background tasks
+	/// (weak, so that the hook does not keep pending requests alive after the tasks have ended).
 	#[cfg(jsonrpsee_verif)]
-	verif_manager: ThreadSafeRequestManager,
+	verif_manager: std::sync::Weak<std::sync::Mutex<RequestManager>>,
 }
 
 #[cfg(jsonrpsee_verif)]
@@ -462,7 +463,10 @@ impl<L> Client<L> {
 	/// (requests, subscriptions, batches, notification handlers).
 	#[doc(hidden)]
 	pub fn verif_table_sizes(&self) -> (usize, usize, usize, usize) {
-		self.verif_manager.lock().verif_sizes()
+		match self.verif_manager.upgrade() {
+			Some(m) => m.lock().expect(NOT_POISONED).verif_sizes(),
+			None => (0, 0, 0, 0),
+		}
 	}
 }
 
